@@ -152,7 +152,7 @@ func init() {
 			func(s *e1.Stats) bool { return s.MaxMembers >= 3 && len(s.ClassesChanged) >= 3 && s.ViewCompares > 0 })
 		partConcurrent(c, a, "C01")
 		partStepThrough(c, a, []string{"join", "switch", "leave", "delete"})
-		partGated(c, a, []func(*sut.Proc) *e2.Result{e2.G6SameKeyActionWriters, e2.G4ModuleStateRace}, 1)
+		partGated(c, a, []func(*sut.Proc) *e2.Result{e2.G6SameKeyActionWriters, e2.G5SameKeyComponentWriters, e2.G4ModuleStateRace}, 1)
 		return a.finish(c)
 	}
 	registry["C02"] = func(c *check.Ctx) int {
